@@ -123,6 +123,8 @@ def verify_case(case, repo=None, summaries_lib=None, seed=0):
     summaries_lib = summaries_lib or {"summaries": {}, "loops": {}}
     res = CaseResult(case.name)
     t0 = time.time()
+    if getattr(case, "ground", None) is not None:
+        return verify_ground(case, repo, summaries_lib, res, t0)
     try:
         eng = make_engine(case, repo, summaries_lib, seed)
         ctxs = []
@@ -242,3 +244,66 @@ def run_concrete(case, repo, summaries_lib, prims):
         return ("return", v, eng.ctx.get("inp"))
     except PyExc as e:
         return ("raise", e.cls, eng.ctx.get("inp") if hasattr(eng, "ctx") else None)
+
+
+def verify_ground(case, repo, summaries_lib, res, t0):
+    """Finite domain decided completely: the real code is executed by the engine on every element of the domain and
+    every clause is evaluated to a ground truth value (no solver needed)."""
+    try:
+        eng = make_engine(case, repo, summaries_lib)
+        n = 0
+        n_return = 0
+        seen_raise = set()
+        for prims in case.ground():
+            n += 1
+            eng.reset_path([])
+            S = EngineSource(eng, prims)
+            try:
+                v = run_case_call(case, eng, S)
+                kind = "return"
+            except PyExc as e:
+                kind, v = "raise", e.cls
+            except Skip:
+                continue
+            if len(eng.trace) != 0:
+                raise Unsupported("ground case forked: inputs are not fully concrete")
+            inp = eng.ctx.get("inp")
+            if kind == "return":
+                n_return += 1
+                for label, f in case.ensures.items():
+                    try:
+                        ok = f(inp, v)
+                        ok = bool(ok) if not is_sym(ok) else z3.is_true(z3.simplify(ok))
+                        detail = f"returned {_short(v)}"
+                    except Exception as ex:
+                        ok, detail = False, f"postcondition not evaluable: {type(ex).__name__}: {ex}"
+                    res.v("post:" + label).add("unsat" if ok else "sat", 0.0, None if ok else prims, detail)
+                for exc, w in case.raises.items():
+                    ok = not bool(w(inp))
+                    res.v("raises:" + exc).add("unsat" if ok else "sat", 0.0, None if ok else prims,
+                                               f"returned although {exc} is specified")
+                res.v("no-other-exception").add("unsat")
+            else:
+                seen_raise.add(v)
+                if v in case.raises:
+                    ok = bool(case.raises[v](inp))
+                    res.v("raises:" + v).add("unsat" if ok else "sat", 0.0, None if ok else prims,
+                                             f"{v} raised outside its condition")
+                    res.v("no-other-exception").add("unsat")
+                else:
+                    res.v("no-other-exception").add("sat", 0.0, prims, f"undocumented {v} escapes")
+        for vd in res.verdicts.values():
+            vd.backend = "ground evaluation in the executor (finite domain, exhaustive)"
+        res.paths = n
+        res.covers["return"] = n_return > 0 or not case.ensures
+        for exc in case.raises:
+            res.covers["raise:" + exc] = exc in seen_raise
+        res.trusted = sorted(eng.trusted_used)
+        res.calls = sorted(eng.calls_seen)
+        res.files = repo.hashes()
+    except Unsupported as ex:
+        res.error = "unsupported: " + str(ex)
+    except Exception as ex:
+        res.error = "crash: " + "".join(traceback.format_exception(type(ex), ex, ex.__traceback__))[-3000:]
+    res.seconds = time.time() - t0
+    return res
